@@ -125,7 +125,9 @@ func runC12(cw *caseWriter, tier string, seed uint64) {
 	if tier == "quick" {
 		runScenarios(cw, 7, seed*100000, 24, 12)
 		runScenarios(cw, 8, seed*100000, 8, 4)
+		runScenarios(cw, 15, seed*100000, 6, 3) // a lagging voter exactly one term ahead: the electable server must still win
 	} else {
+		runScenarios(cw, 15, seed*100000, 80, 3)
 		runScenarios(cw, 7, seed*100000, 400, 12)
 		runScenarios(cw, 8, seed*100000, 120, 4)
 	}
